@@ -111,7 +111,7 @@ def build_argv(layout, cfg_path, out_path):
     return pre + ["--"] + post, expect, prog, out
 
 
-def run_tool(exe, stubdir, workdir, header_text, cfg, layout="output_last", timeout=60):
+def run_tool(exe, stubdir, workdir, header_text, cfg, layout="output_last", timeout=60, stale=None):
     """Run the real binary once in a fresh process. cfg: dict or None (no -c option at all).
     -> dict(rc, stdout, stderr, output (processed header or None), stub_argv (list or None), stub_prog, expect_argv, out_file_exists)"""
     os.makedirs(workdir, exist_ok=True)
@@ -127,6 +127,10 @@ def run_tool(exe, stubdir, workdir, header_text, cfg, layout="output_last", time
     for pth in (out_path, out_path + ".second"):
         if os.path.exists(pth):
             os.remove(pth)
+    if stale is not None:
+        # something (an earlier, longer header) is already at the output path: it must be replaced, not patched
+        with open(out_path, "w") as f:
+            f.write(stale)
     log = os.path.join(workdir, "stub_argv")
     if os.path.exists(log):
         os.remove(log)
